@@ -1,6 +1,6 @@
 """C08 Fast-mode dataset equals light-mode items, however it is initialised."""
 import astq
-from rules import cgsize, dsinit, rv64, rvhsem, x86hsem, aeshw, a64dsread, rvdsread, x86loop
+from rules import cgsize, dsinit, rv64, rvhsem, x86hsem, aeshw, a64dsread, rvdsread, x86loop, rtpreserve
 
 LEVEL = 'other'
 TECHNIQUE = 'affine / interval case analysis of randomx_init_dataset over (count mod 4) x (count < 4) regions, constant-table agreement spec vs C++ vs assembled object, call-sequence and shape rules on the item construction; evaluation of the address-arithmetic slice on a sample set of ranges'
@@ -46,3 +46,4 @@ def run(ctx, R):
     a64dsread.rule_dsitem(ctx, R)
     rvdsread.rule_dsitem(ctx, R)
     x86loop.rule_dsitem(ctx, R)
+    rtpreserve.rule_a64_calldest(ctx, R)
